@@ -19,7 +19,8 @@ TECHNIQUE = 'runtime contract on to_mef (own-curve oracle with distinct injectiv
 RULE = ('samples/arrays with 2..6 channels x lists of distinct injective curves (affine and power laws) x every '
         'permutation of the pairing for <=4 curves x requested subsets/orders/spellings incl. None, one uncovered '
         'channel, unequal lengths; non-trivial = >=2 curves and a request whose order differs from the curve order; '
-        'distinct = digest(sample, pairing, request)')
+        'distinct = digest(sample, pairing, request)'
+        ' Also: even and saturating curves, NaN/inf/negative events, samples without events, derived samples, requests naming a channel twice, tuple/ndarray argument forms.')
 ASSUMPTIONS = ['curves are pure functions; expected column computed by calling the same curve object on the same '
                'float64 column view (bitwise comparison)']
 MIN_CHECKS = {'quick': 8000, 'thorough': 150000}
